@@ -106,8 +106,12 @@ def parse_tag(token, namespace, restricted_namespace):
 
     default = node['namespace'] = namespace.get(prefix, XML_NS)
 
+    # The namespace mapping may hold fewer entries than there are
+    # attributes (repeated or colliding names), so the (namespace,
+    # name) pair of each attribute is also kept by position
+    ns_keys = node['ns_keys'] = []
     node['ns_attrs'] = unpack_attributes(
-        node['attrs'], namespace, default, restricted_namespace
+        node['attrs'], namespace, default, restricted_namespace, ns_keys
     )
 
     node['ns_map'] = namespace
@@ -127,7 +131,8 @@ def update_namespace(attributes, namespace) -> None:
             namespace[name[6:]] = value
 
 
-def unpack_attributes(attributes, namespace, default, restricted_namespace):
+def unpack_attributes(attributes, namespace, default, restricted_namespace,
+                      keys=None):
     namespaced = OrderedDict()
 
     for index, attribute in enumerate(attributes):
@@ -148,6 +153,8 @@ def unpack_attributes(attributes, namespace, default, restricted_namespace):
         else:
             ns = default
         namespaced[ns, name] = value
+        if keys is not None:
+            keys.append((ns, name))
 
     return namespaced
 
